@@ -436,8 +436,8 @@ fn set_limits() {
     // instead of taking the sandbox down.
     unsafe {
         let lim = libc::rlimit {
-            rlim_cur: 8 << 30,
-            rlim_max: 8 << 30,
+            rlim_cur: 10 << 30,
+            rlim_max: 10 << 30,
         };
         libc::setrlimit(libc::RLIMIT_AS, &lim);
         let core = libc::rlimit {
